@@ -682,12 +682,13 @@ def draw_options(draw, n, npt, prof, has_two_sided, force_opt=None):
             if draw(st.integers(0, 5)) == 0:
                 up["restarts.soft.max_fake_successful_steps"] = draw(st.sampled_from([1, 2, 4]))
     if prof["opts"]:
-        o = draw(st.sampled_from(prof.get("opts_list") or list(range(12))))
+        o = draw(st.sampled_from(prof.get("opts_list") or list(range(14))))
         if force_opt is not None:
             o = force_opt
         if o == 0 and n > 1 and npt == n + 1 and "restarts.increase_npt" not in up:
             up["growing.ndirs_initial"] = draw(st.integers(1, n - 1))
-            g = draw(st.sampled_from(["default", "perturb", "newdirs", "geom", "safety_reduce", "safety_full", "reset"]))
+            g = draw(st.sampled_from(["default", "perturb", "newdirs", "geom", "safety_reduce", "safety_full", "reset",
+                                      "gamma_dec", "no_safety", "delta_scale", "full_rank_params"]))
             if g == "perturb":
                 up["growing.full_rank.use_full_rank_interp"] = False
                 up["growing.perturb_trust_region_step"] = True
@@ -703,6 +704,20 @@ def draw_options(draw, n, npt, prof, has_two_sided, force_opt=None):
             elif g == "reset":
                 up["growing.reset_delta"] = True
                 up["growing.reset_rho"] = draw(st.booleans())
+            elif g == "gamma_dec":
+                up["growing.gamma_dec"] = draw(st.sampled_from([0.25, 0.9]))
+            elif g == "no_safety":
+                up["growing.safety.do_safety_step"] = False
+            elif g == "delta_scale":
+                up["growing.delta_scale_new_dirns"] = draw(st.sampled_from([0.1, 0.5, 2.0]))
+                up["growing.num_new_dirns_each_iter"] = draw(st.integers(0, 2))
+            elif g == "full_rank_params":
+                up["growing.full_rank.scale_factor"] = draw(st.sampled_from([1e-2, 1.0]))
+                up["growing.full_rank.min_sing_val"] = draw(st.sampled_from([1e-6, 1e-2]))
+                up["growing.full_rank.svd_scale_factor"] = draw(st.sampled_from([1.0, 0.1]))
+                up["growing.full_rank.svd_max_jac_cond"] = draw(st.sampled_from([1e2, 1e8]))
+            if mode == "hard" and draw(st.integers(0, 2)) == 0:
+                up["restarts.hard.increase_ndirs_initial_amt"] = draw(st.sampled_from([0, 2]))
             tags.append("growing:" + g)
         elif o == 1:
             up["init.random_initial_directions"] = True
@@ -749,6 +764,12 @@ def draw_options(draw, n, npt, prof, has_two_sided, force_opt=None):
             tags.append("noise-quit")
         elif o == 9:
             up["logging.n_to_print_whole_x_vector"] = draw(st.sampled_from([0, 1, 6]))
+        elif o == 12:
+            up["tr_radius.eta1"] = draw(st.sampled_from([0.01, 0.1, 0.3]))
+            up["tr_radius.eta2"] = draw(st.sampled_from([0.5, 0.7, 0.95]))
+            tags.append("eta")
+        elif o == 13 and prof.get("overflow_off", True):
+            up["general.check_objfun_for_overflow"] = False      # only meaningful without injected overflow (C08 switches it off)
     return up, tags, mode
 
 
